@@ -21,7 +21,7 @@ RULE = (
     "set: every near-miss (version min-1/max+1, key -1/max+1 and gaps, type not offered by that API, "
     "EntityType.nested) plus Hypothesis-drawn arbitrary ints/strings for key, name, version: must raise "
     "UnknownAPIKey (bad key) or UnknownEntity (else) and nothing else. Non-trivial = near-miss or arbitrary "
-    "invalid input; distinct by argument tuple. The exhaustive valid sweep and the near-misses are repeated in a child "
+    "invalid input; distinct by argument tuple. Lookup sequences: for every API B, a successful lookup of a neighbouring API A at version n, a failing lookup of B at a version it lacks, then B at n - must be B's class. The exhaustive valid sweep and the near-misses are repeated in a child "
     "interpreter started with -O (assert statements stripped - a common production setting): same expectations."
 )
 
@@ -191,6 +191,11 @@ def run(ctx: Ctx) -> Report:
             rep.add_failure(Failure(res[0], res[1], {"kind": "invalid", "fn": name, "args": _enc_args(args)}, len(res[1])))
     rep.extra["near_misses"] = len(nm)
     rep.samples.extend([{"fn": n, "args": repr(a), "expected": w} for n, a, w in nm[:: max(1, len(nm) // 6)][:6]])
+    # 3a. lookups are independent of the lookups made before: for every API B, after a SUCCESSFUL lookup of another API A at
+    # version n and a correctly FAILING lookup of B (a version B does not have), B is looked up at n and at its own versions
+    for sig, msg in lookup_sequences(disk):
+        rep.add_failure(Failure(sig, msg, {"kind": "sequence"}, len(msg)))
+    rep.evaluations += 4 * len({a for a, _v, _t, _m in disk})
     # 3b. the same exhaustive sweep and near-misses in an interpreter that strips assert statements (python -O)
     for sig, msg, case in optimized_child():
         rep.add_failure(Failure(sig, msg, case, len(msg)))
@@ -256,6 +261,45 @@ def run(ctx: Ctx) -> Report:
     return rep
 
 
+def lookup_sequences(disk) -> list:
+    import kio.index as I
+
+    ET = _et()
+    by_api: dict = {}
+    for api, v, t, modname in disk:
+        if t in ("request", "response"):
+            by_api.setdefault(api, {}).setdefault(v, {})[t] = modname
+    apis = sorted(by_api)
+    out = []
+    for i, b in enumerate(apis):
+        a = apis[i - 1]
+        vb = sorted(by_api[b])
+        for n in sorted(set(by_api[a]) & set(vb))[-2:]:
+            for t in ("request", "response"):
+                if t not in by_api[a][n] or t not in by_api[b][n]:
+                    continue
+                try:
+                    I.load_entity_schema(a, n, ET[t])  # success for A
+                    for bad in (max(vb) + 1, min(vb) - 1):
+                        try:
+                            I.load_entity_schema(b, bad, ET[t])  # must fail for B
+                            out.append(("sequence:returned-for-invalid", f"load_entity_schema({b!r}, {bad}, {t}) returned instead of raising"))
+                        except I.UnknownEntity:
+                            pass
+                        got = I.load_entity_schema(b, n, ET[t])
+                        mod = I.load_entity_module(b, n, ET[t])
+                        if got.__module__ != by_api[b][n][t] or mod.__name__ != by_api[b][n][t]:
+                            out.append(("sequence:wrong-class-after-failed-lookup",
+                                        f"after load_entity_schema({a!r}, {n}) succeeded and load_entity_schema({b!r}, {bad}) failed, "
+                                        f"load_entity_schema({b!r}, {n}, {t}) returned {got.__module__}.{got.__qualname__} / module {mod.__name__}, "
+                                        f"expected {by_api[b][n][t]}"))
+                except Exception as e:
+                    out.append((f"sequence:raised:{type(e).__name__}", f"{a} v{n} then {b}: {e!r}"))
+                if len(out) >= 6:
+                    return out
+    return out
+
+
 def child_cases() -> list:
     """valid sweep + near misses -> [(signature, message, replay case)] (run in the -O child and by its replay)"""
     import kio.index as I
@@ -299,6 +343,8 @@ def optimized_child() -> list:
 def replay(case):
     import kio.index as I
 
+    if case.get("kind") == "sequence":
+        return lookup_sequences(D.walk_version_modules())
     if case.get("kind") == "python-O":
         return [(s, m) for s, m, _ in optimized_child()]
 
